@@ -426,6 +426,11 @@ type World struct {
 	Trace   []string // human readable action trace
 	Cfg     *Cfg
 	Stats   *CaseStats
+
+	snapOnce  sync.Once
+	snapReq   chan struct{}
+	snapRep   chan *Snap
+	blockedIn string // guarded by mu
 }
 
 type Violation struct {
